@@ -527,15 +527,14 @@ def f_parallel(ids, rng, sample=1.0, big=0):
             out.append(scn(ids, xcfg(iface), calls, tag="par-pixels"))
             calls = [RAMWR]
             for cnt in (0, 1, 2, 3, 4, 7):
-                for same in (True, False):
-                    if n == 1 and not same:
-                        continue
-                    if same:
-                        v = rng.choice(alpha); pixel = [v] * n
-                    else:
-                        pixel = [rng.choice(alpha) for _ in range(n)]
-                        if len(set(pixel)) == 1:
-                            pixel[0] ^= 1
+                v = rng.choice(alpha); u = rng.choice([a for a in alpha if a != v])
+                # all words equal, all different-ish, and every partial-equality pattern (v v u / v u v / u v v)
+                pats = [[v] * n]
+                if n == 2:
+                    pats += [[v, u], [u, v]]
+                if n == 3:
+                    pats += [[v, v, u], [v, u, v], [u, v, v], [v, u, (u ^ v) & ((1 << wbits) - 1)]]
+                for pixel in pats:
                     calls.append({"name": "xport.send_repeated_pixel", "n": n, "pixel": pixel, "count": split16(cnt)})
             out.append(scn(ids, xcfg(iface), calls, tag="par-repeat"))
         # commands: instruction then parameters; D/C low only at the instruction
@@ -561,9 +560,13 @@ def f_parallel(ids, rng, sample=1.0, big=0):
                 calls.append({"name": "bus.set_value", "v": v})
                 if rng.random() < 0.4:
                     faults.append({"call": len(calls), "k": rng.randrange(1, wbits + 1), "effect": rng.random() < 0.5})
-                    calls.append({"name": "bus.set_value", "v": v})          # same value again
+                    # what follows a failure: the value before it (the cache must not still claim it), the same
+                    # value again (the cache must not claim it already), or something else
+                    prev = vals[i - 1] if i else (v ^ 0x55) & ((1 << wbits) - 1)
+                    nxt = rng.choice(["prev", "prev", "same", "same", "other"])
+                    calls.append({"name": "bus.set_value", "v": prev if nxt == "prev" else v if nxt == "same" else rng.choice(alpha)})
                     if rng.random() < 0.5:
-                        calls.append({"name": "bus.set_value", "v": vals[i - 1] if i else v ^ 1})
+                        calls.append({"name": "bus.set_value", "v": rng.choice([prev, v])})
             s = scn(ids, xcfg(busname), calls, tag="bus-faults")
             s["faults"] = faults
             out.append(s)
@@ -975,4 +978,53 @@ def f_testimage_display(ids, rng, quick):
                         continue
                     c = cfg(model, w, h, ox, oy, rot, mir, iface=iface, buf=64)
                     out.append(scn(ids, c, [INIT, {"name": "test_image"}], tag="testimage"))
+    return out
+
+
+# ------------------------------------------------------------------------- small-alphabet call sequences (state carried between calls)
+
+def f_small_alphabet(ids, rng, n, ifaces=("spi",), sizes=((2, 2), (3, 2), (2, 3), (4, 3)), seq=(3, 9), tag="smallalpha"):
+    """random call sequences over a deliberately tiny alphabet (two colours, a few rectangles), so that calls
+    repeat colours, sizes and positions of earlier calls: finds state that survives from one call to the next
+    (staging buffers, bus caches, cached address modes)"""
+    out = []
+    for _ in range(n):
+        W, H = rng.choice(sizes)
+        model = "tiny565_%dx%d" % (W, H)
+        w = rng.randrange(1, W + 1); h = rng.randrange(1, H + 1)
+        ox = rng.randrange(0, W - w + 1); oy = rng.randrange(0, H - h + 1)
+        rot, mir = rng.choice(ORIENTS)
+        lw, lh = lsize(w, h, rot)
+        A = rng.choice([0x0000, 0x00FF, 0x1234, 0xFFFF, 0x0101]); B = (A + 1) % 65536
+        rects = [[0, 0, lw, lh], [0, 0, lw, 1], [0, 0, 1, lh], [lw - 1, lh - 1, 1, 1], [0, 0, max(lw - 1, 1), max(lh - 1, 1)]]
+        iface = rng.choice(ifaces)
+        c = cfg(model, w, h, ox, oy, rot, mir, iface=iface, buf=rng.choice([2, 3, 4, 5, 6, 8, 64]))
+        calls = [INIT]
+        for _ in range(rng.randrange(*seq)):
+            k = rng.randrange(7)
+            col = rng.choice([A, A, B])
+            if k == 0:
+                calls.append({"name": "fill_solid", "rect": rng.choice(rects), "c": col})
+            elif k == 1:
+                calls.append({"name": "clear", "c": col})
+            elif k == 2:
+                r = rng.choice(rects)
+                calls.append({"name": "fill_contiguous", "rect": r, "colors": {"start": col, "len": rng.choice([-1, r[2] * r[3]])}})
+            elif k == 3:
+                r = rng.choice(rects)
+                n_ = r[2] * r[3]
+                calls.append({"name": "set_pixels", "win": [r[0], r[1], r[0] + r[2] - 1, r[1] + r[3] - 1],
+                              "colors": [rng.choice([A, B]) if i else col for i in range(n_)]})
+            elif k == 4:
+                m = rng.randrange(1, 5)
+                x0 = rng.randrange(lw); y0 = rng.randrange(lh)
+                calls.append({"name": "draw_iter", "px": [[min(x0 + i, lw - 1), y0, col if i == 0 else rng.choice([A, B])] for i in range(m)]})
+            elif k == 5:
+                calls.append({"name": "set_pixel", "x": rng.randrange(lw), "y": rng.randrange(lh), "c": col})
+            else:
+                r2, m2 = rng.choice(ORIENTS)
+                if lsize(w, h, r2) == (lw, lh):         # keep the rectangles valid
+                    calls.append({"name": "set_orientation", "rot": r2, "mir": m2})
+                    rot, mir = r2, m2
+        out.append(scn(ids, c, calls, tag=tag))
     return out
